@@ -162,6 +162,21 @@ example : (run (W.init 1) [.pushStr [97], .pushStr [98], .mergeChar 40]).output 
 example : (run (W.init 4) [.pushStr [97], .pushStr [98, 98], .mergeChar 40]).output = [97, 10, 98, 98, 40] := by decide  -- `a bb` re-broken as `a⏎bb(`
 example : (run (W.init 80) [.pushStr [49], .pushStrAndBreakIf [46, 46], .pushStr [120]]).output = [49, 32, 46, 46, 120] := by decide
 
+/-- `merge_char` (which opens every tuple argument list in the dense generator) writes its
+character DIRECTLY after the previously written character, for every column span: when the
+line is full it moves the last push to a new line together with the character instead of
+breaking in front of it. So the `(` of call arguments is never the first token of a line
+(Lua 5.1 `funcargs` rejects that as "ambiguous syntax", Luau in statement position). The
+harness checks on every real dense trace that each tuple argument list is opened by
+`merge_char '('`, and the Lean re-reader applies the `funcargs` rule to the real text. -/
+theorem merge_char_adjacent (w : W) (c p : Nat) (t : List Nat) (h : w.rout = p :: t)
+    (hl : 1 ≤ w.lastPush) : ∃ t', (mergeChar w c).rout = c :: p :: t' :=
+  mergeChar_adjacent w c p t h hl
+
+-- non-vacuity: a callee `f` on a full line (span 1): `f(` stays together, `push_str "()"` would not
+example : (mergeChar (rawPushStr (W.init 1) [102]) 40).output = [10, 102, 40] := by decide
+example : (pushStr (rawPushStr (W.init 1) [102]) [40, 41]).output = [102, 10, 40, 41] := by decide
+
 /-! ## 5. `;` insertion -/
 
 /-- For every expression (with the model's numeral atoms kinded as numerals): darklua's
